@@ -66,6 +66,7 @@ func c22Main(seed uint64, n int, keys, replay string) {
 		mode   int
 		sig    string
 		chain  int
+		sr     int // ServiceResult of the CreateSessionResponse: 0 Good(0), 1 non-zero Good, 2 Uncertain, 3 Bad
 	}
 	var cfgs []cfg
 	if replay != "" {
@@ -77,13 +78,13 @@ func c22Main(seed uint64, n int, keys, replay string) {
 			fmt.Fprintln(os.Stderr, "replay file has no case")
 			os.Exit(2)
 		}
-		cfgs = append(cfgs, cfg{rp.Case.S["policy"], rp.Case.P["mode"], rp.Case.S["sig"], rp.Case.P["chain"]})
+		cfgs = append(cfgs, cfg{rp.Case.S["policy"], rp.Case.P["mode"], rp.Case.S["sig"], rp.Case.P["chain"], rp.Case.P["sr"]})
 	} else {
 		// the full matrix policies x {Sign, SignAndEncrypt} x signature variants, then None, then seeded repeats
 		for _, p := range c22Policies {
 			for m := 2; m <= 3; m++ {
 				for _, s := range c22Sigs {
-					cfgs = append(cfgs, cfg{p, m, s, 0})
+					cfgs = append(cfgs, cfg{p, m, s, 0, 0})
 				}
 			}
 		}
@@ -91,15 +92,21 @@ func c22Main(seed uint64, n int, keys, replay string) {
 		for _, p := range []string{"Basic256Sha256", "Aes256_Sha256_RsaPss"} {
 			for m := 2; m <= 3; m++ {
 				for _, s := range c22Sigs {
-					cfgs = append(cfgs, cfg{p, m, s, 1})
+					cfgs = append(cfgs, cfg{p, m, s, 1, 0})
 				}
 			}
 		}
 		for _, s := range c22Sigs {
-			cfgs = append(cfgs, cfg{"None", 1, s, 0})
+			cfgs = append(cfgs, cfg{"None", 1, s, 0, 0})
+		}
+		// the CreateSessionResponse itself carries a non-zero ServiceResult (non-zero Good, Uncertain, Bad): every variant
+		for sr := 1; sr <= 3; sr++ {
+			for i, s := range c22Sigs {
+				cfgs = append(cfgs, cfg{c22Policies[(i+sr)%len(c22Policies)], 2 + (i+sr)%2, s, 0, sr})
+			}
 		}
 		for len(cfgs) < n {
-			cfgs = append(cfgs, cfg{c22Policies[r.Intn(len(c22Policies))], r.Range(2, 3), c22Sigs[r.Intn(len(c22Sigs))], r.Intn(2)})
+			cfgs = append(cfgs, cfg{c22Policies[r.Intn(len(c22Policies))], r.Range(2, 3), c22Sigs[r.Intn(len(c22Sigs))], r.Intn(2), r.Pick(0, 0, 1, 2, 3)})
 		}
 		if n < len(cfgs) && n > 0 {
 			// quick tier: a seeded sample that still contains every signature variant and every policy
@@ -115,7 +122,7 @@ func c22Main(seed uint64, n int, keys, replay string) {
 			}
 			for _, i := range perm {
 				c := cfgs[i]
-				k1, k2 := "s:"+c.sig+fmt.Sprint(c.mode == 1, c.chain), "p:"+c.policy+fmt.Sprint(c.mode)
+				k1, k2 := "s:"+c.sig+fmt.Sprint(c.mode == 1, c.chain, c.sr), "p:"+c.policy+fmt.Sprint(c.mode)
 				if !seen[k1] || !seen[k2] || len(sel) < n {
 					seen[k1], seen[k2] = true, true
 					sel = append(sel, c)
@@ -150,6 +157,11 @@ func c22Main(seed uint64, n int, keys, replay string) {
 						activates++
 					case *ua.CreateSessionRequest:
 						creates++
+						if sr := c.P["sr"]; sr != 0 {
+							resp := cn.Srv.Default(cn, r)
+							resp.Header().ServiceResult = []ua.StatusCode{0, ua.StatusGoodCompletesAsynchronously, ua.StatusUncertainNotAllNodesAvailable, ua.StatusBadInternalError}[sr]
+							return resp, true
+						}
 					}
 					return nil, false
 				})
@@ -262,7 +274,7 @@ func c22Main(seed uint64, n int, keys, replay string) {
 		}()
 	}
 	for i, c := range cfgs {
-		ch <- &Case{ID: i, Op: "c22", P: map[string]int{"mode": c.mode, "chain": c.chain}, S: map[string]string{"policy": c.policy, "sig": c.sig, "keys": keys}}
+		ch <- &Case{ID: i, Op: "c22", P: map[string]int{"mode": c.mode, "chain": c.chain, "sr": c.sr}, S: map[string]string{"policy": c.policy, "sig": c.sig, "keys": keys}}
 	}
 	close(ch)
 	wg.Wait()
